@@ -27,6 +27,7 @@ type viewRec struct {
 	step    int
 	headNum int               // height of the canonical head the view was aligned to
 	acq     []*chaingen.Block // the node's canonical chain when the view was taken
+	base    *chaingen.Block   // the canonical block the view was aligned to (nil: the head moved during the reader action, not determinable)
 	entries []*pending.PreConfirmed
 	fp      string
 	checks  int
@@ -44,6 +45,35 @@ type pcWorld struct {
 
 	take func() (preconfirmed.ChainReader, error) // how a reader obtains a view
 	feed jsync.PreConfirmedDataSubscription
+
+	// class definitions
+	canonDefs map[felt.Felt]core.ClassDefinition // classes declared by any canonical block the run has had under a view
+	regOn     map[felt.Felt]string               // class hash -> identifier of the round on whose stored entry its definition was last seen registered
+}
+
+// noteCanon records the classes of canonical blocks (current chain, chains under held views).
+func (p *pcWorld) noteCanon(bs []*chaingen.Block) {
+	if p.canonDefs == nil {
+		p.canonDefs = map[felt.Felt]core.ClassDefinition{}
+	}
+	for _, b := range bs {
+		for h, d := range b.Classes {
+			p.canonDefs[h] = d
+		}
+	}
+}
+
+// noteRegistered records that the storage holds (held) an entry with class definitions registered on it.
+func (p *pcWorld) noteRegistered(e *pending.PreConfirmed) {
+	if e == nil || len(e.NewClasses) == 0 {
+		return
+	}
+	if p.regOn == nil {
+		p.regOn = map[felt.Felt]string{}
+	}
+	for h := range e.NewClasses {
+		p.regOn[h] = e.BlockIdentifier
+	}
 }
 
 // drainFeed empties the pre-confirmed data feed (not part of the statement; counted as evidence
@@ -53,6 +83,7 @@ func (p *pcWorld) drainFeed() {
 	case e := <-p.feed.Recv():
 		if e != nil {
 			p.w.c.Probe("poller_published_update")
+			p.noteRegistered(e)
 			p.w.logf("obs: poller published block %d round %s with %d txs", e.Block.Number, e.BlockIdentifier, len(e.Block.Transactions))
 		}
 	default:
@@ -180,6 +211,13 @@ func (p *pcWorld) checkTaken(ch preconfirmed.ChainReader, heads []int, early *vi
 	}
 	p.nViews++
 	v := &viewRec{id: p.nViews, chain: ch, step: w.step, headNum: alignedTo, acq: append([]*chaingen.Block(nil), p.canon()...), entries: entries, fp: fpNow}
+	if len(heads) == 1 && alignedTo >= 0 && alignedTo < len(v.acq) {
+		v.base = v.acq[alignedTo]
+	}
+	p.noteCanon(v.acq)
+	for _, e := range entries {
+		p.noteRegistered(e)
+	}
 	p.views = append(p.views, v)
 	if len(p.views) > 5 {
 		p.views = p.views[1:]
@@ -248,33 +286,61 @@ func mutatedWhat(a, b string) string {
 
 // stateCheck: oracle (3). State read through view v at block n must equal the canonical state of
 // the block below the view overlaid with the state diffs of the view's blocks up to n, in order.
-// The canonical block below the view is taken as it is at read time (that is what the view opens);
-// when the chain no longer has that height (a revert made the view stale) nothing is compared.
+//
+// While the chain still has the height below the view, the canonical block below the view is taken as it
+// is at read time (that is what the view opens; a base block replaced by another fork is accepted as the
+// base). When the chain no longer has that height (the head was reverted below the base the view was
+// aligned to) there is no canonical state below the view any more: a read through the held view may be
+// refused, but when it is answered it must answer what the view answered before, i.e. the overlay over
+// the base the view was aligned to - never a value taken from the state of the live head.
 func (p *pcWorld) stateCheck(v *viewRec, idx int) {
 	w := p.w
 	c := w.c
 	n := v.entries[idx].Block.Number
 	baseNum := int(v.entries[0].Block.Number) - 1
 	now := p.canon()
+	p.noteCanon(now)
+	gone := baseNum >= len(now) || baseNum < 0
+	var live *refstate.State // state of the live head (gone only)
+	if gone {
+		c.Probe("state_read_on_stale_view")
+		c.Probe("held_view_read_after_base_reverted")
+		live = refstate.New()
+		if len(now) > 0 {
+			live = now[len(now)-1].Post
+		}
+		if v.base != nil {
+			if p.distinguishable(v, idx, v.base.Post, live) {
+				c.Probe("held_view_read_after_base_reverted_distinguishable")
+			}
+		}
+	}
 	st, closer, err := v.chain.PreConfirmedStateAt(n, p.bc)
 	if err != nil {
-		if baseNum >= len(now) || baseNum < 0 {
-			c.Probe("state_read_on_stale_view")
-			w.logf("reader: view#%d state@%d: base block %d is gone (%v)", v.id, n, baseNum, err)
+		if gone {
+			c.Probe("held_view_read_after_base_reverted_refused")
+			w.logf("reader: view#%d state@%d: base block %d is gone (head %d), the read is refused (%v)", v.id, n, baseNum, len(now)-1, err)
 			return
 		}
 		c.Fail("overlay_state", "open_failed", "view#%d: PreConfirmedStateAt(%d) failed although canonical block %d exists: %v", v.id, n, baseNum, err)
 	}
 	defer func() { _ = closer() }()
-	if baseNum >= len(now) || baseNum < 0 {
-		c.Probe("state_read_on_stale_view")
-		w.logf("reader: view#%d state@%d: opened over a base height the chain no longer has; not compared", v.id, n)
-		return
-	}
-	base := now[baseNum]
-	stale := baseNum >= len(v.acq) || v.acq[baseNum] != base
-	if stale {
-		c.Probe("state_read_base_replaced_since_acquisition")
+	var base *chaingen.Block
+	pfx, stale := "", false
+	if gone {
+		c.Probe("held_view_read_after_base_reverted_answered")
+		if v.base == nil {
+			c.Inconclusive++
+			w.logf("reader: view#%d state@%d: opened although base block %d is gone; the base the view was aligned to is not determinable (the head moved while the view was taken); not compared", v.id, n, baseNum)
+			return
+		}
+		base, pfx, stale = v.base, "base_reverted:", true
+	} else {
+		base = now[baseNum]
+		stale = baseNum >= len(v.acq) || v.acq[baseNum] != base
+		if stale {
+			c.Probe("state_read_base_replaced_since_acquisition")
+		}
 	}
 	ov := newOverlay(base.Post)
 	for i := 0; i <= idx; i++ {
@@ -285,31 +351,97 @@ func (p *pcWorld) stateCheck(v *viewRec, idx int) {
 	c.Evals++
 	v.checks++
 	t := c.T
-	var addrs []felt.Felt
-	for _, a := range refstate.SortedFelts(ov.st.Contracts) {
-		if !ov.st.Contracts[a].System && !ov.skip(a) {
-			addrs = append(addrs, a)
-		}
+	ctx := fmt.Sprintf("base block %d %s, stale=%v", baseNum, short(base.B.Hash), stale)
+	if gone {
+		ctx = fmt.Sprintf("base block %d %s the view was aligned to has been reverted, live head %d", baseNum, short(base.B.Hash), len(now)-1)
 	}
 	nread := 0
-	for q := 0; q < 4 && len(addrs) > 0; q++ {
-		a := addrs[t.Draw("rd.addr", len(addrs))]
-		ct := ov.st.Contracts[a]
+	// readContract compares everything readable of contract a (which exists in the overlay model) for the given slots
+	readContract := func(a felt.Felt, ct *refstate.Contract, slots []felt.Felt) {
 		nread++
 		ch, err := st.ContractClassHash(&a)
 		if err != nil || !ch.Equal(&ct.ClassHash) {
-			c.Fail("overlay_state", "ContractClassHash", "view#%d state@%d ContractClassHash(%s)=%s,%v expected %s (base block %d %s, stale=%v)", v.id, n, short(&a), short(&ch), err, short(&ct.ClassHash), baseNum, short(base.B.Hash), stale)
+			c.Fail("overlay_state", pfx+"ContractClassHash", "view#%d state@%d ContractClassHash(%s)=%s,%v expected %s (%s)", v.id, n, short(&a), short(&ch), err, short(&ct.ClassHash), ctx)
 		}
 		nn, err := st.ContractNonce(&a)
 		if err != nil || !nn.Equal(&ct.Nonce) {
-			c.Fail("overlay_state", "ContractNonce", "view#%d state@%d ContractNonce(%s)=%s,%v expected %s (base block %d %s, stale=%v)", v.id, n, short(&a), short(&nn), err, short(&ct.Nonce), baseNum, short(base.B.Hash), stale)
+			c.Fail("overlay_state", pfx+"ContractNonce", "view#%d state@%d ContractNonce(%s)=%s,%v expected %s (%s)", v.id, n, short(&a), short(&nn), err, short(&ct.Nonce), ctx)
 		}
-		for r := 0; r < 2; r++ {
-			k := p.m.slots[t.Draw("rd.slot", len(p.m.slots))]
+		for _, k := range slots {
 			want := ct.Storage[k]
 			got, err := st.ContractStorage(&a, &k)
 			if err != nil || !got.Equal(&want) {
-				c.Fail("overlay_state", "ContractStorage", "view#%d state@%d ContractStorage(%s,%s)=%s,%v expected %s (base block %d %s, stale=%v)", v.id, n, short(&a), short(&k), short(&got), err, short(&want), baseNum, short(base.B.Hash), stale)
+				c.Fail("overlay_state", pfx+"ContractStorage", "view#%d state@%d ContractStorage(%s,%s)=%s,%v expected %s (%s)", v.id, n, short(&a), short(&k), short(&got), err, short(&want), ctx)
+			}
+		}
+	}
+	if !gone {
+		var addrs []felt.Felt
+		for _, a := range refstate.SortedFelts(ov.st.Contracts) {
+			if !ov.st.Contracts[a].System && !ov.skip(a) {
+				addrs = append(addrs, a)
+			}
+		}
+		for q := 0; q < 4 && len(addrs) > 0; q++ {
+			a := addrs[t.Draw("rd.addr", len(addrs))]
+			var slots []felt.Felt
+			for r := 0; r < 2; r++ {
+				slots = append(slots, p.m.slots[t.Draw("rd.slot", len(p.m.slots))])
+			}
+			readContract(a, ov.st.Contracts[a], slots)
+		}
+	} else {
+		// no draws: every contract of the overlay model and of the live head, every slot either of them has
+		// (keys the view's diffs cover and keys they do not), up to a bound
+		ovLive := newOverlay(live)
+		for i := 0; i <= idx; i++ {
+			for _, d := range v.entries[i].TransactionStateDiffs {
+				ovLive.apply(d)
+			}
+		}
+		all := map[felt.Felt]bool{}
+		for a := range ov.st.Contracts {
+			all[a] = true
+		}
+		for a := range ovLive.st.Contracts {
+			all[a] = true
+		}
+		budget := 160
+		for _, a := range refstate.SortedFelts(all) {
+			ct, lv := ov.st.Contracts[a], ovLive.st.Contracts[a]
+			if ov.skip(a) || (ct != nil && ct.System) || (ct == nil && lv.System) || budget <= 0 {
+				continue
+			}
+			keys := map[felt.Felt]bool{}
+			if ct != nil {
+				for k := range ct.Storage {
+					keys[k] = true
+				}
+			}
+			if lv != nil {
+				for k := range lv.Storage {
+					keys[k] = true
+				}
+			}
+			slots := refstate.SortedFelts(keys)
+			if len(slots) > 12 {
+				slots = slots[:12]
+			}
+			budget -= 2 + len(slots)
+			if ct != nil {
+				readContract(a, ct, slots)
+				continue
+			}
+			// the contract does not exist in the overlay over the base the view was aligned to (only the live
+			// head has it): nothing but "absent" (an error or zero) may be answered
+			nread++
+			if ch, err := st.ContractClassHash(&a); err == nil && !ch.IsZero() {
+				c.Fail("overlay_state", pfx+"ContractClassHash_of_absent_contract", "view#%d state@%d ContractClassHash(%s)=%s for a contract that does not exist in the overlay (%s)", v.id, n, short(&a), short(&ch), ctx)
+			}
+			for _, k := range slots {
+				if got, err := st.ContractStorage(&a, &k); err == nil && !got.IsZero() {
+					c.Fail("overlay_state", pfx+"ContractStorage_of_absent_contract", "view#%d state@%d ContractStorage(%s,%s)=%s for a contract that does not exist in the overlay (%s)", v.id, n, short(&a), short(&k), short(&got), ctx)
+				}
 			}
 		}
 	}
@@ -317,14 +449,241 @@ func (p *pcWorld) stateCheck(v *viewRec, idx int) {
 		want := ov.casm[h]
 		got, err := st.CompiledClassHash((*felt.SierraClassHash)(&h))
 		if err != nil || !(*felt.Felt)(&got).Equal(&want) {
-			c.Fail("overlay_state", "CompiledClassHash", "view#%d state@%d CompiledClassHash(%s)=%s,%v expected %s", v.id, n, short(&h), short((*felt.Felt)(&got)), err, short(&want))
+			c.Fail("overlay_state", pfx+"CompiledClassHash", "view#%d state@%d CompiledClassHash(%s)=%s,%v expected %s", v.id, n, short(&h), short((*felt.Felt)(&got)), err, short(&want))
 		}
 		nread++
 	}
+	ncls := p.classReads(v, idx, st, base, pfx, ctx)
 	if nread > 0 && idx > 0 {
 		c.Probe("state_read_across_several_view_blocks")
 	}
-	w.logf("reader: view#%d state@%d over canonical block %d: %d items agree with the overlay model (stale=%v)", v.id, n, baseNum, nread, stale)
+	w.logf("reader: view#%d state@%d over canonical block %d: %d items and %d class lookups agree with the overlay model (%s)", v.id, n, baseNum, nread, ncls, ctx)
+}
+
+// distinguishable: would a read through view v at entries[idx] over state b instead of state a be noticed,
+// i.e. does some value the comparison reads differ between the two overlays?
+func (p *pcWorld) distinguishable(v *viewRec, idx int, a, b *refstate.State) bool {
+	oa, ob := newOverlay(a), newOverlay(b)
+	for i := 0; i <= idx; i++ {
+		for _, d := range v.entries[i].TransactionStateDiffs {
+			oa.apply(d)
+			ob.apply(d)
+		}
+	}
+	for h := range a.Classes {
+		if b.Classes[h] == nil {
+			return true
+		}
+	}
+	for h := range b.Classes {
+		if a.Classes[h] == nil {
+			return true
+		}
+	}
+	for addr, ca := range oa.st.Contracts {
+		if oa.skip(addr) || ca.System {
+			continue
+		}
+		cb := ob.st.Contracts[addr]
+		if cb == nil || !cb.ClassHash.Equal(&ca.ClassHash) || !cb.Nonce.Equal(&ca.Nonce) || len(cb.Storage) != len(ca.Storage) {
+			return true
+		}
+		for k, x := range ca.Storage {
+			if y, ok := cb.Storage[k]; !ok || !y.Equal(&x) {
+				return true
+			}
+		}
+	}
+	return false
+}
+
+// classUniverse lists every class hash the run has used so far - declared by a canonical block (of the
+// current chain or of a chain some view was taken over, i.e. also reverted blocks and other forks), by a
+// pre-confirmed transaction of any round (current, replaced, abandoned; registered on a stored entry or
+// not) - plus two hashes nothing ever declared. The hashes view v itself carries or declares come first.
+func (p *pcWorld) classUniverse(v *viewRec) []felt.Felt {
+	first := map[felt.Felt]bool{}
+	for _, e := range v.entries {
+		for h := range e.NewClasses {
+			first[h] = true
+		}
+		for _, d := range e.TransactionStateDiffs {
+			for h := range d.DeclaredV1Classes {
+				first[h] = true
+			}
+		}
+	}
+	rest := map[felt.Felt]bool{*fu(0xdead0001): true, *fu(0x900000 + 0xfffff): true}
+	for h := range p.canonDefs {
+		rest[h] = true
+	}
+	for h := range p.m.classes {
+		rest[h] = true
+	}
+	out := refstate.SortedFelts(first)
+	for _, h := range refstate.SortedFelts(rest) {
+		if !first[h] {
+			out = append(out, h)
+		}
+	}
+	if len(out) > 120 {
+		out = out[:120]
+	}
+	return out
+}
+
+// classOrigin says, for the trace and the violation key, where a class hash that neither the base nor a
+// block of the view up to entries[idx] declares comes from.
+func (p *pcWorld) classOrigin(v *viewRec, idx int, h felt.Felt) string {
+	if _, ok := p.canonDefs[h]; ok {
+		return "declared_by_a_canonical_block_not_below_the_view"
+	}
+	x := p.m.classTx[h]
+	if x == nil {
+		if _, ok := p.m.classes[h]; ok {
+			return "declared_by_no_transaction"
+		}
+		return "never_declared"
+	}
+	for i, e := range v.entries {
+		if e.Block.Number != x.slot {
+			continue
+		}
+		switch {
+		case e.BlockIdentifier != x.round:
+			return "declared_only_in_an_abandoned_round_of_a_view_slot"
+		case i > idx:
+			return "declared_by_a_later_block_of_the_view"
+		default:
+			return "declared_by_a_transaction_the_view_block_does_not_hold"
+		}
+	}
+	return "declared_in_a_round_of_a_slot_outside_the_view"
+}
+
+// classReads: oracle (3) for class definitions. st is the state read through view v at entries[idx] over
+// canonical block base. For every class hash of the universe: Class(h) resolves only if base declares the
+// class or a block of the view up to entries[idx] does (in a state diff the view itself carries), and then
+// with the declared definition; it must resolve when base declares it or when an entry of the view up to
+// that block carries the definition. A class a view block declares whose definition no entry carries may
+// be unresolved (definitions are not part of a state diff; whether the poller has fetched one yet is
+// not part of the statement). CompiledClassHash of a pre-confirmed class resolves exactly when a block of
+// the view up to entries[idx] declares it.
+func (p *pcWorld) classReads(v *viewRec, idx int, st core.StateReader, base *chaingen.Block, pfx, ctx string) int {
+	w := p.w
+	c := w.c
+	n := v.entries[idx].Block.Number
+	decl := map[felt.Felt]bool{}
+	carried := map[felt.Felt]core.ClassDefinition{}
+	for i := 0; i <= idx; i++ {
+		e := v.entries[i]
+		diffs := append([]*core.StateDiff(nil), e.TransactionStateDiffs...)
+		if e.StateUpdate != nil && e.StateUpdate.StateDiff != nil {
+			diffs = append(diffs, e.StateUpdate.StateDiff)
+		}
+		for _, d := range diffs {
+			if d == nil {
+				continue
+			}
+			for h := range d.DeclaredV1Classes {
+				decl[h] = true
+			}
+			for _, h := range d.DeclaredV0Classes {
+				decl[*h] = true
+			}
+		}
+		for h, def := range e.NewClasses {
+			carried[h] = def
+		}
+	}
+	nq := 0
+	for _, h := range p.classUniverse(v) {
+		nq++
+		bc := base.Post.Classes[h]
+		got, err := st.Class(&h)
+		switch {
+		case err == nil && bc == nil && !decl[h]:
+			origin := p.classOrigin(v, idx, h)
+			c.Fail("overlay_state", pfx+"Class_resolved_but_not_declared:"+origin, "view#%d state@%d Class(%s) resolves a definition although neither the canonical base nor a block of the view up to %d declares that class (%s; its definition was last seen registered on a stored entry of round %q; %s)", v.id, n, short(&h), n, origin, p.regOn[h], ctx)
+		case err == nil:
+			if got == nil || got.Class == nil {
+				c.Fail("overlay_state", pfx+"Class_nil", "view#%d state@%d Class(%s) returned no definition and no error", v.id, n, short(&h))
+			}
+			var want core.ClassDefinition
+			if decl[h] {
+				want = p.m.classes[h]
+				c.Probe("class_declared_in_view_resolved")
+			} else {
+				want = bc.Def
+				c.Probe("class_of_canonical_base_resolved")
+			}
+			if want != nil {
+				if cw, cg := canon(want), canon(got.Class); cw != cg {
+					c.Fail("overlay_state", pfx+"Class_definition", "view#%d state@%d Class(%s) resolves to another definition than the declared one: %s", v.id, n, short(&h), firstDiff(cw, cg))
+				}
+			}
+		case bc != nil:
+			c.Fail("overlay_state", pfx+"Class_of_canonical_base_not_found", "view#%d state@%d Class(%s): %v, although canonical block %d (declared at %d) has the class (%s)", v.id, n, short(&h), err, base.B.Number, bc.DeclaredAt, ctx)
+		case decl[h] && carried[h] != nil:
+			c.Fail("overlay_state", pfx+"Class_carried_by_view_not_found", "view#%d state@%d Class(%s): %v, although a block of the view up to %d declares the class and carries its definition", v.id, n, short(&h), err, n)
+		case decl[h]:
+			c.Probe("class_declared_in_view_definition_not_registered")
+		default:
+			switch p.classOrigin(v, idx, h) {
+			case "declared_only_in_an_abandoned_round_of_a_view_slot":
+				c.Probe("class_of_abandoned_round_absent")
+				if p.regOn[h] != "" {
+					c.Probe("class_registered_on_replaced_round_absent")
+				}
+			case "declared_by_a_later_block_of_the_view":
+				c.Probe("class_of_later_view_block_absent")
+			case "declared_by_a_canonical_block_not_below_the_view":
+				c.Probe("class_of_canonical_block_not_below_view_absent")
+			case "never_declared", "declared_by_no_transaction":
+				c.Probe("class_never_declared_absent")
+			}
+		}
+		// compiled class hash of pre-confirmed classes (never declared by the canonical chain)
+		if _, pc := p.m.classes[h]; pc && bc == nil && !decl[h] {
+			if got, err := st.CompiledClassHash((*felt.SierraClassHash)(&h)); err == nil {
+				c.Fail("overlay_state", pfx+"CompiledClassHash_resolved_but_not_declared:"+p.classOrigin(v, idx, h), "view#%d state@%d CompiledClassHash(%s)=%s although neither the canonical base nor a block of the view up to %d declares that class (%s)", v.id, n, short(&h), short((*felt.Felt)(&got)), n, ctx)
+			}
+		}
+	}
+	return nq
+}
+
+// classCheck: the class part of oracle (3) at every block of a held view.
+func (p *pcWorld) classCheck(v *viewRec) {
+	w := p.w
+	c := w.c
+	baseNum := int(v.entries[0].Block.Number) - 1
+	now := p.canon()
+	p.noteCanon(now)
+	if baseNum >= len(now) || baseNum < 0 {
+		// the base is gone: what a read may answer then is stateCheck's subject
+		p.stateCheck(v, len(v.entries)-1)
+		return
+	}
+	base := now[baseNum]
+	stale := baseNum >= len(v.acq) || v.acq[baseNum] != base
+	ctx := fmt.Sprintf("base block %d %s, stale=%v", baseNum, short(base.B.Hash), stale)
+	c.Evals++
+	v.checks++
+	nq := 0
+	for idx := range v.entries {
+		n := v.entries[idx].Block.Number
+		st, closer, err := v.chain.PreConfirmedStateAt(n, p.bc)
+		if err != nil {
+			c.Fail("overlay_state", "open_failed", "view#%d: PreConfirmedStateAt(%d) failed although canonical block %d exists: %v", v.id, n, baseNum, err)
+		}
+		nq += p.classReads(v, idx, st, base, "", ctx)
+		_ = closer()
+	}
+	if len(v.entries) > 1 {
+		c.Probe("class_resolution_checked_at_every_block_of_a_view")
+	}
+	w.logf("reader: view#%d class resolution at each of its %d blocks over canonical block %d: %d lookups agree with the overlay model (%s)", v.id, len(v.entries), baseNum, nq, ctx)
 }
 
 // lookupCheck: oracle (4).
@@ -392,6 +751,21 @@ func (p *pcWorld) readerOptions(alignedTo func() int) []option {
 			p.stateCheck(v, p.w.c.T.Draw("rd.block", len(v.entries)))
 		}})
 		opts = append(opts, option{"reader.lookup", 2, func() { p.lookupCheck(pick()) }})
+		opts = append(opts, option{"reader.class", 2, func() { p.classCheck(pick()) }})
+		// held views whose base the canonical chain no longer has (the head was reverted below it)
+		var gone []*viewRec
+		height := len(p.canon())
+		for _, v := range p.views {
+			if int(v.entries[0].Block.Number)-1 >= height {
+				gone = append(gone, v)
+			}
+		}
+		if len(gone) > 0 {
+			opts = append(opts, option{"reader.reverted", 4, func() {
+				v := gone[p.w.c.T.Draw("rd.gone", len(gone))]
+				p.stateCheck(v, p.w.c.T.Draw("rd.block", len(v.entries)))
+			}})
+		}
 	}
 	return opts
 }
@@ -437,7 +811,7 @@ func (p *pcWorld) pcEnvOptions() []option {
 		st := m.stateThrough(base, lat.num)
 		k := 1 + t.Draw("pc.app.n", 2)
 		for i := 0; i < k; i++ {
-			lat.txs = append(lat.txs, m.genTx(st))
+			m.extend(lat, st)
 		}
 		w.logf("env: sequencer appends %d txs to slot %d round %s (now %d)", k, lat.num, lat.ident, len(lat.txs))
 	}})
